@@ -164,6 +164,14 @@ fn fixed_once(ctx: &Ctx) -> CaseInfo {
     eval(&c, ctx)
 }
 
+pub fn run_family_pub(bytes: &[u8], ctx: &Ctx) -> CaseInfo {
+    run_family(bytes, ctx)
+}
+
+pub fn witness_pub() -> Option<String> {
+    witness()
+}
+
 pub fn def() -> PropertyDef {
     PropertyDef {
         id: "C11",
